@@ -42,6 +42,29 @@ CLAIMED = {
              "Correspondence: ~1700 streams per run with a victim at every position and bit/burst/byte/0xD3/CRC corruption.",
         note=CORR + "Time fields are projected away.", design="5/C12",
         technique="Coq proof (induction over segments) + extracted-model correspondence"),
+    "C05": dict(
+        text="Theorems C05_decode, C05_reject_short, C05_reject_type, C05_total (axiom-free) and C05_display (Flocq): every "
+             "well-formed 1005/1006 message laid out as the standard says (coordinates over the whole signed 38-bit range) "
+             "decodes to exactly its fields with any extra payload bytes; short frames and other types are rejected with an "
+             "error and the decoders never panic; for every 38-bit X the binary64 product float64(X)*0.0001 is within 1e-8 of "
+             "X/10^4, so its nearest four-decimal value is X/10^4 itself. Correspondence: 2500 encoded messages per run decoded "
+             "directly and through handler+Analyse, every truncation length, wrong types, and the displayed text compared with "
+             "the exact decimal.",
+        note=CORR + "C05_display depends on the standard library's primitive-float/Uint63 specifications and the classical real "
+             "numbers (listed in the evidence); that %.4f prints the correctly rounded decimal of the exact binary value is "
+             "strconv's contract and is checked on every displayed case.", design="5/C05",
+        technique="Coq proof (bit-list round trip; Flocq error bound) + extracted-model correspondence"),
+    "C08": dict(
+        text="Theorems C08_scaled_range, C08_scaled_phase, C08_scaled_rate (the uint64/int64 wraps are harmless; the aggregates "
+             "are exactly the standard's sums), C08_msm4_msm7_agree, C08_invalid (axiom-free) and C08_range_error (Flocq: the "
+             "pseudorange in metres has relative error below 2^-51 for every 41-bit scaled range). Correspondence: the bits of "
+             "every float result (range, phase range, rate, Doppler, wavelength) of ~2000 tuples per run are compared with the "
+             "Coq primitive-float model evaluated by the kernel VM, and with the standard's formulas in exact rational arithmetic.",
+        note=CORR + "Partial: the relative-error theorem is proved for the pseudorange; for phase range, rate and Doppler the "
+             "binary64 pipelines are modelled operation by operation and compared bit for bit with the implementation and "
+             "against the exact formulas (4-6 units of 2^-53), not yet bounded by a theorem. Axioms: primitive floats/Uint63 "
+             "specifications and classical reals of the standard library.", design="5/C08",
+        technique="Coq proof (integer exactness by lia; Flocq relative error) + bit-exact float correspondence in the kernel VM"),
     "C06": dict(
         text="Theorem C06_true_time (axiom-free), a corollary of C17_any_start: for every start time T and every admissible "
              "history (any interleaving of GPS/Galileo/GLONASS/BeiDou MSM4/MSM7 frames, non-decreasing whole-millisecond "
